@@ -167,6 +167,94 @@ def run(ck, F):
                     bad.append(None)
         bad = [b for b in bad if b]
         ck.check(R3, f['id'], not bad, f'{f["id"]} holds constant(s) {bad} that reach the stream as control bytes', loc=f['loc'], fn=f['id'])
+    # single characters picked out of a table of strings (the two delimiters of an enclosure): for every row that can be selected
+    # there, the position exists in the row and holds a printable byte (an empty row yields its terminator, a NUL)
+    R3t = ck.rule('C18.table-characters', 'a character read at a constant position from a row of a constant table of strings, the row being '
+                  'selected by an enumeration value, is a printable byte of that row for every enumerator that is not excluded by an '
+                  'earlier test-and-return on that value: no row is too short for the position (its terminator, or padding, is a NUL)', floor=1)
+    from facts import local_init as _local_init
+
+    def _bare8(x):
+        if isinstance(x, dict):
+            if x.get('k') == 'cast':
+                return _bare8(x.get('e'))
+            if x.get('k') == 'call' and len(x.get('args') or []) == 1 and (x.get('callee') or {}).get('name') in ('rep', 'to_underlying'):
+                return _bare8(x['args'][0])
+            return tuple(sorted((k, _bare8(v)) for k, v in x.items() if k not in ('ln', 't', 'col')))
+        if isinstance(x, list):
+            return tuple(_bare8(v) for v in x)
+        return x
+
+    def _enum_t(x):
+        for _ in range(4):
+            t = (x.get('t') or '').replace('const ', '').strip()
+            if t in F.enums:
+                return t
+            if x.get('k') == 'cast':
+                x = x.get('e') or {}
+            elif x.get('k') == 'call' and len(x.get('args') or []) == 1:
+                x = x['args'][0]
+            else:
+                break
+        return None
+    def _sc8(x):
+        while isinstance(x, dict) and x.get('k') == 'cast':
+            x = x.get('e')
+        return x or {}
+    tables8 = {g['q']: g for g in F.globals if g['loc'].split(':')[0] in PRINTER_FILES and 'init' in g and (g.get('init') or {}).get('k') == 'initlist'}
+    n_tc = 0
+    for f in sorted(pf, key=lambda f: f['id']):
+        for n in walk(f.get('body')):
+            if n.get('k') != 'index' or 'cv' not in _sc8(n.get('idx') or {}):
+                continue
+            j = int(_sc8(n['idx'])['cv'])
+            row = _sc8(n.get('base') or {})
+            if row.get('k') == 'ref' and row.get('kind') == 'local':
+                row = _sc8(_local_init(f, row) or {})
+            if row.get('k') != 'index':
+                continue
+            tab = _sc8(row.get('base') or {})
+            g = tables8.get((tab.get('q') or '').replace('(anonymous namespace)', '(anon)')) or next((g_ for g_ in tables8.values() if g_['name'] == tab.get('name') and g_.get('in_function', f['id']) == f['id']), None)
+            if g is None:
+                continue
+            rows8 = []
+            for e_ in g['init'].get('elts', []):
+                lits = [x for x in walk(e_) if x.get('k') == 'lit' and x.get('lt') == 'str']
+                rows8.append(bytes(lits[0].get('bytes', [])) if len(lits) == 1 else None)
+            sel = row.get('idx') or {}
+            en = _enum_t(sel)
+            cand = list(range(len(rows8)))
+            if en is not None:
+                vals = sorted(int(x['value']) for x in F.enums[en].get('enumerators', []))
+                cand = [v for v in vals]
+                # enumerators sent away earlier: `if (<same value> == K) { ...; return; }`
+                for m in walk(f.get('body')):
+                    if m.get('k') == 'if' and m.get('ln', 0) <= n.get('ln', 0) and any(x.get('k') == 'return' for x in walk(m.get('then'))):
+                        c = _sc8(m.get('c') or {})
+                        ops = None
+                        if c.get('k') == 'binop' and c.get('op') == '==':
+                            ops = (c.get('l'), c.get('r'))
+                        elif c.get('k') == 'call' and (c.get('callee') or {}).get('name') == 'operator==' and len(c.get('args') or []) == 2:
+                            ops = tuple(c['args'])
+                        if ops:
+                            for a_, b_ in (ops, ops[::-1]):
+                                if _bare8(a_) == _bare8(sel) and 'cv' in _sc8(b_ or {}):
+                                    cand = [v for v in cand if v != int(_sc8(b_)['cv'])]
+            n_tc += 1
+            bad = []
+            for v in cand:
+                if not (0 <= v < len(rows8)) or rows8[v] is None:
+                    continue
+                b = rows8[v]
+                if j >= len(b):
+                    bad.append(f'row {v} ({b!r}) has no character at position {j}: its terminator / padding (NUL) is printed')
+                elif (b[j] < 0x20 and b[j] != 0x0a) or b[j] >= 0x7f:
+                    bad.append(f'row {v} holds the control byte {b[j]:#x} at position {j}')
+            ck.check(R3t, f'{contracts.short(contracts.fn_qname(f["id"]))}:{g["name"]}[..][{j}]', not bad,
+                     f'{f["id"]} (line {n.get("ln")}): ' + '; '.join(bad[:2]), loc=f['loc'], fn=f['id'])
+    if n_tc == 0:
+        ck.check(R3t, 'inventory', True, 'no character is picked out of a table row in the printer')
+
     # unformatted output with an explicit extent: write(buffer, n) / put(c) on the stream or its buffer
     R5 = ck.rule('C18.explicit-extent-writes', 'an unformatted write of the printer (ostream::write / put, streambuf::sputn / sputc) takes its '
                  'bytes from a whole character view (data() and size() of the same object: a spelling of the graph) or from a constant '
